@@ -10,12 +10,12 @@ Definition in_progress (st : nstate) (r : tok) : Prop :=
   forall d, tget' (ns_rounds st) r = Some d ->
     has_suffix (d_state d) "_error" = false /\ has_suffix (d_state d) "_timeout" = false.
 
-Theorem accepted_message_is_authentic now st m req pid h x :
+Theorem accepted_message_is_authentic put now st m req pid h x :
   ns_skip st = false ->
   m_event m <> ev_sig_init -> m_event m <> ev_sig_reconstructed -> m_event m <> ev_sig_recon_failed ->
   m_req m = MFsm req -> req_pid req = Some pid ->
   in_progress st (m_round m) ->
-  process_message now {| h_st := st; h_tr := [] |} m = ROk h x ->
+  process_message put now {| h_st := st; h_tr := [] |} m = ROk h x ->
   (exists p, round_payload st (m_round m) p /\ valid_sig p m) /\
   (exists p', registered_as p' (m_sender m) pid).
 Proof.
